@@ -4,14 +4,14 @@ namespace SMGo.Proofs.ISAVal
 open SMGo.Model.ISAVal SMGo
 
 /-- the body of `expandKeyAsm` as a scheme -/
-def eCode : List DInstr := eproCode ++ eroundsCode 32
+def ekCode : List DInstr := eproCode ++ eroundsCode 32
 
 theorem e_decode :
     (Routine.ofListing Gen.ListAmd64Asm.expandKeyAsm).toOption.map (fun r => r.map erasePc)
-      = some (eCode ++ [ins .RET [] 0]) := by decide +kernel
+      = some (ekCode ++ [ins .RET [] 0]) := by decide +kernel
 
-theorem e_noControl : eCode.all (fun i => !i.mn.isControl) = true := by decide +kernel
-theorem e_length : eCode.length = 566 := by decide +kernel
+theorem e_noControl : ekCode.all (fun i => !i.mn.isControl) = true := by decide +kernel
+theorem e_length : ekCode.length = 566 := by decide +kernel
 
 /-! ### against the specification -/
 
@@ -99,7 +99,7 @@ theorem expandKey_eq_spec (g v k key enc0 dec0 : List Nat)
   -- prologue, 32 rounds
   obtain ⟨s1', hrun1, hr1⟩ := eprologue_spec g v k enc0 dec0 hg hv hk hdec s0 s1 s2 s3 s4 s5 s6 s7 s8 s9 s10 s11 s12 s13 s14 s15 hkb
   obtain ⟨s2', hrun2, hr2⟩ := readyE_rounds _ enc0 dec0 henc hdec _ s1' hr1 32 (Nat.le_refl _)
-  have hrun : execList eCode (expandKeyState g v k [s0, s1, s2, s3, s4, s5, s6, s7, s8, s9, s10, s11, s12, s13, s14, s15] enc0 dec0) = .ok s2' :=
+  have hrun : execList ekCode (expandKeyState g v k [s0, s1, s2, s3, s4, s5, s6, s7, s8, s9, s10, s11, s12, s13, s14, s15] enc0 dec0) = .ok s2' :=
     execList_append_ok hrun1 hrun2
   -- the initial window is bounded
   have h := fun x hx => hkb x hx
@@ -130,7 +130,7 @@ theorem expandKey_eq_spec (g v k key enc0 dec0 : List Nat)
     simp only [toW] at hspec
     rw [hspec]
   -- the run of the listing
-  have hrunL := run_of_decode _ eCode e_decode e_noControl 2000 (by rw [e_length]; decide) _ s2' hrun
+  have hrunL := run_of_decode _ ekCode e_decode e_noControl 2000 (by rw [e_length]; decide) _ s2' hrun
   unfold runExpandKey
   rw [hrunL]
   obtain ⟨g3, v3, k3, fl3, m3, sy3, fr3⟩ := s2'
